@@ -576,11 +576,11 @@ class EspiritCalib(sp.app.App):
         with self.device:
             # Normalize phase with respect to first channel
             mps = self.mps.T[0]
-            mps *= xp.conj(mps[0] / xp.abs(mps[0]))
+            mps = mps * xp.conj(mps[0] / xp.abs(mps[0]))
 
             # Crop maps by thresholding eigenvalue
             max_eig = self.alg.max_eig.T[0]
-            mps *= max_eig > self.crop
+            mps = mps * (max_eig > self.crop)
 
         if self.output_eigenvalue:
             return mps, max_eig
